@@ -570,8 +570,11 @@ func (p *prop) Run(line string) core.Outcome {
 		dctWant = http.DetectContentType(fp)
 	}
 	if dctWant != k.dct && o.Impl != "bad-op" {
-		// the line lies about what the external function returns on its own payload
+		// the line lies about what the external function returns on its own payload (never generated;
+		// a shrinking candidate may do it): not a case, nothing is judged
 		o.Impl = "bad-dct"
+		o.Tags = append(o.Tags, "bad-dct", "trivial")
+		return o
 	}
 	p.judge(k, sel, rcd, res, &o)
 	return o
